@@ -28,6 +28,7 @@ import (
 	"fmt"
 	"math"
 	"math/rand"
+	"os"
 	"sort"
 	"strings"
 
@@ -88,7 +89,8 @@ func famUTest(mode string, args []string) error {
 func utReplay(raw json.RawMessage) Verdict {
 	var c utCase
 	if err := json.Unmarshal(raw, &c); err != nil {
-		return fail("bad-case", "cannot decode case: %v", err)
+		utBad("cannot decode case: %v", err)
+		return pass()
 	}
 	switch c.Kind {
 	case "class":
@@ -100,7 +102,8 @@ func utReplay(raw json.RawMessage) Verdict {
 	case "approx":
 		return utApprox(&c)
 	}
-	return fail("bad-case", "unknown kind %q", c.Kind)
+	utBad("unknown kind %q", c.Kind)
+	return pass()
 }
 
 // ---------------------------------------------------------------- helpers
@@ -151,8 +154,9 @@ func utValues(rng *rand.Rand, k int) []float64 {
 			x = math.Nextafter(x, math.Inf(1))
 		}
 	case 4: // subnormals
+		off := rng.Intn(3) * k
 		for i := range v {
-			v[i] = 5e-324 * float64(i+1+rng.Intn(3)*k)
+			v[i] = 5e-324 * float64(i+1+off)
 		}
 	case 5: // huge
 		x := 1e300 * (1 + rng.Float64())
@@ -169,7 +173,7 @@ func utValues(rng *rand.Rand, k int) []float64 {
 	}
 	for i := 1; i < k; i++ {
 		if !(v[i-1] < v[i]) {
-			panic(fmt.Sprint("utValues not strictly increasing: ", v))
+			utBad("utValues not strictly increasing: %v", v)
 		}
 	}
 	return v
@@ -190,6 +194,12 @@ func utSamples(rng *rand.Rand, t, r []int) (x1, x2 []float64) {
 	rng.Shuffle(len(x1), func(i, j int) { x1[i], x1[j] = x1[j], x1[i] })
 	rng.Shuffle(len(x2), func(i, j int) { x2[i], x2[j] = x2[j], x2[i] })
 	return
+}
+
+// utBad reports a defect of the harness or of a generated case: exit 2, never a verdict.
+func utBad(format string, a ...interface{}) {
+	fmt.Fprintf(os.Stderr, "utest harness: "+format+"\n", a...)
+	os.Exit(2)
 }
 
 func utConcrete(x1, x2 []float64) string {
@@ -246,7 +256,8 @@ func utClass(c *utCase) Verdict {
 	conc := utConcrete(x1, x2)
 	n1, n2 := len(x1), len(x2)
 	if n1 != c.N1 || n1+n2 != utSum(c.T) {
-		return fail("bad-case", "class does not match sizes")
+		utBad("class does not match sizes")
+		return pass()
 	}
 	in1 := append([]float64(nil), x1...)
 	in2 := append([]float64(nil), x2...)
@@ -274,7 +285,7 @@ func utClass(c *utCase) Verdict {
 		return v
 	}
 	if c.Alt == "two" {
-		if res.P < 0 || res.P > 1 {
+		if res.P < 0 || res.P > 1+1e-12 { // a last-ulp excess (1.0000000000000002) is not a verdict
 			v.Signature, v.Detail = "two-sided-outside-unit-interval", fmt.Sprintf("P=%v", res.P)
 			return v
 		}
@@ -312,7 +323,8 @@ func utDist(c *utCase) Verdict {
 		cum[v] = s
 	}
 	if s != c.Total {
-		return fail("bad-case", "histogram does not sum to total")
+		utBad("histogram does not sum to total")
+		return pass()
 	}
 	wantCDF := func(v int) int {
 		if v < 0 {
@@ -426,7 +438,8 @@ func utError(c *utCase) Verdict {
 		allowed[stats.ErrSampleSize], lallowed[benchstat.ErrSampleSize] = true, true
 		allowed[stats.ErrSamplesEqual], lallowed[benchstat.ErrSamplesEqual] = true, true
 	default:
-		return fail("bad-case", "unknown outcome %q", c.Outcome)
+		utBad("unknown outcome %q", c.Outcome)
+		return pass()
 	}
 	for _, alt := range []string{"less", "two", "greater"} {
 		res, err := stats.MannWhitneyUTest(x1, x2, utAlt(alt))
@@ -521,6 +534,9 @@ func utExactHist(t []int, n1 int) []float64 {
 				continue
 			}
 			for r := 0; r <= tk && a+r <= n1; r++ {
+				if (sofar+tk)-(a+r) > n-n1 {
+					continue // more than n2 elements in the second sample
+				}
 				w := utChoose(tk, r)
 				add := r * (2*(sofar-a) + (tk - r))
 				if next[a+r] == nil {
@@ -561,26 +577,56 @@ func utApprox(c *utCase) Verdict {
 	var x1, x2 []float64
 	shift := []float64{0, 0, 0.3, -0.3, 1, -1}[rng.Intn(6)]
 	if c.Ties {
-		// a small alphabet; at least one tie and at least two distinct values
-		k := 2 + rng.Intn(n1+n2-2)
-		if k > 40 {
-			k = 3 + rng.Intn(38)
-		}
-		vals := utValues(rng, k)
-		for {
-			x1, x2 = x1[:0], x2[:0]
+		switch rng.Intn(3) {
+		case 0:
+			// a small alphabet; at least one tie and at least two distinct values
+			k := 2 + rng.Intn(n1+n2-2)
+			if k > 40 {
+				k = 3 + rng.Intn(38)
+			}
+			vals := utValues(rng, k)
+			for {
+				x1, x2 = x1[:0], x2[:0]
+				for i := 0; i < n1; i++ {
+					j := int(float64(k) * (rng.Float64() + 0.15*shift))
+					x1 = append(x1, vals[utClamp(j, 0, k-1)])
+				}
+				for i := 0; i < n2; i++ {
+					x2 = append(x2, vals[rng.Intn(k)])
+				}
+				t, _ := utTieVector(x1, x2)
+				if len(t) >= 2 && len(t) < n1+n2 {
+					break
+				}
+			}
+		case 1:
+			// every value of sample 1 is distinct; the only ties are inside sample 2
+			vals := utValues(rng, n1+n2)
+			perm := rng.Perm(n1 + n2)
 			for i := 0; i < n1; i++ {
-				j := int(float64(k)*(rng.Float64()+0.15*shift))
-				x1 = append(x1, vals[utClamp(j, 0, k-1)])
+				x1 = append(x1, vals[perm[i]])
 			}
-			for i := 0; i < n2; i++ {
-				x2 = append(x2, vals[rng.Intn(k)])
+			for i := n1; i < n1+n2; i++ {
+				x2 = append(x2, vals[perm[i]])
 			}
-			t, _ := utTieVector(x1, x2)
-			if len(t) >= 2 && len(t) < n1+n2 {
-				break
+			for d := 1 + rng.Intn(3); d > 0; d-- {
+				x2[rng.Intn(n2-1)+1] = x2[0]
+			}
+		default:
+			// both samples free of internal ties; a few values occur once in each
+			vals := utValues(rng, n1+n2)
+			perm := rng.Perm(n1 + n2)
+			for i := 0; i < n1; i++ {
+				x1 = append(x1, vals[perm[i]])
+			}
+			for i := n1; i < n1+n2; i++ {
+				x2 = append(x2, vals[perm[i]])
+			}
+			for d, e := 0, 1+rng.Intn(3); d < e; d++ {
+				x2[d] = x1[d]
 			}
 		}
+		rng.Shuffle(len(x2), func(i, j int) { x2[i], x2[j] = x2[j], x2[i] })
 	} else {
 		vals := utValues(rng, n1+n2)
 		// sample 1 draws positions with a location shift: order the positions by a
@@ -604,7 +650,8 @@ func utApprox(c *utCase) Verdict {
 	t, u2x := utTieVector(x1, x2)
 	hasTies := len(t) < n1+n2
 	if hasTies != c.Ties {
-		return fail("bad-case", "tie generation failed")
+		utBad("tie generation failed")
+		return pass()
 	}
 	v := Verdict{Concrete: utConcrete(x1, x2)}
 	var hist []float64
